@@ -150,7 +150,9 @@ func TestPropAccum(t *testing.T) {
 		plainOnly := rapid.Bool().Draw(rt, "plainApiOnly")
 		acc, _ := accum.GetAccumulator(store, accName)
 		md := &model{value: coinsR{}, total: new(big.Rat), pos: map[string]*mpos{}}
-		names := []string{"p0", "p1", "p2", "p3", "p4"}
+		// names that are prefixes of one another, as the decimal position ids the concentrated-liquidity module uses are
+		// ("1" vs "10", "12", "100"): a record must be addressed by its exact name
+		names := []string{"1", "10", "12", "100", "2", "p", "p0"}
 		var hist []string
 		nontrivial := false
 		handle := func() {
